@@ -596,6 +596,7 @@ class Tdf:
         """Return the size of the TDF file in bytes"""
         return self.file_path.stat().st_size
 
+    @provide_context_if_needed
     def __len__(self) -> int:
         """Return the number of blocks in the TDF file
         that are not of type unusedSlot
